@@ -413,6 +413,7 @@ LEVEL_TEXT = ("Exploration by runtime observation with the small product enumera
               "content in the intersection of the C01/C02/C07 spaces, every format is written to all 4 destination kinds (texts compared byte "
               "for byte, by parse for XML, by isomorphism for RDF), every (destination, source) cell of the 4 x 5 matrix is deserialised and "
               "compared by strict snapshot, and prov.read is called on path / text stream / binary stream with and without (and with "
-              "upper-case) format.")
+              "upper-case) format."
+              " Destinations also include an object that only has write() and the same relative file name from another current directory; sources an object that only has read(), a text file in another codec and an open file whose name was reused; serializer options are the same for every destination kind; workers run under a descriptor budget of 192.")
 LEVEL_NOTE = "Trusted: strict snapshots, the independent XML reader and rdflib isomorphism for text comparison. Bounded documents."
 DESIGN_REF = "DESIGN.md section 6, C16"
